@@ -24,6 +24,23 @@ func c24subst(f *core.FuncInfo, e ast.Expr, depth int) ast.Expr {
 		if d := c09snapshot(f, x); d != ast.Expr(x) {
 			return c24subst(f, d, depth+1)
 		}
+		// a local holding the result of a pure length helper (`skip := headLen(prefix)`): the helper's
+		// body, with the arguments put in, must itself be stable between the definition and the use
+		if lhsIdents(f)[x] {
+			return e
+		}
+		v, _ := f.Info().ObjectOf(x).(*types.Var)
+		if d := singleDef(f, v); d != nil {
+			if call, isCall := ast.Unparen(d).(*ast.CallExpr); isCall {
+				if in := c24inlinePure(f, call); in != nil {
+					pt, own := c09defPoint(f, v, d)
+					at, hasAt := f.PointOf(x)
+					if own && c09stable(f, in, pt, at, hasAt) {
+						return c24subst(f, in, depth+1)
+					}
+				}
+			}
+		}
 	case *ast.BinaryExpr:
 		switch x.Op {
 		case token.ADD, token.SUB, token.MUL:
@@ -45,9 +62,118 @@ func c24subst(f *core.FuncInfo, e ast.Expr, depth int) ast.Expr {
 					return &ast.CallExpr{Fun: x.Fun, Lparen: x.Lparen, Args: []ast.Expr{in}, Rparen: x.Rparen}
 				}
 			}
+			return e
+		}
+		// a pure length helper called in place (`key[headLen(prefix):]`)
+		if in := c24inlinePure(f, x); in != nil {
+			return c24subst(f, in, depth+1)
 		}
 	}
 	return e
+}
+
+// c24inlinePure returns the value of a call of a small pure helper of the same package as an
+// expression over the caller's operands: the helper's body is a single `return <expr>` built from its
+// parameters, package-level names, literals, + - *, len/cap and integer conversions
+// (`func headLen(p []byte) int { return len(p) + len(separator) }`), and the arguments are plain
+// identifiers. Leaves are original nodes (of the caller or of the helper), so type information stays
+// available; nil when the call is anything else.
+func c24inlinePure(f *core.FuncInfo, call *ast.CallExpr) ast.Expr {
+	obj, _ := f.P.ResolveCallee(f.Info(), call)
+	fn, ok := obj.(*types.Func)
+	if !ok {
+		return nil
+	}
+	g := f.P.FuncOf(fn)
+	if g == nil || g == f || g.Pkg != f.Pkg || g.Recv() != nil || g.Body == nil || len(g.Body.List) != 1 || g.Type == nil || call.Ellipsis.IsValid() {
+		return nil
+	}
+	ret, ok := g.Body.List[0].(*ast.ReturnStmt)
+	if !ok || len(ret.Results) != 1 {
+		return nil
+	}
+	env := map[*types.Var]ast.Expr{}
+	n := 0
+	if g.Type.Params != nil {
+		for _, fl := range g.Type.Params.List {
+			if len(fl.Names) == 0 {
+				return nil
+			}
+			for _, nm := range fl.Names {
+				pv, _ := g.Info().Defs[nm].(*types.Var)
+				if pv == nil || n >= len(call.Args) {
+					return nil
+				}
+				if _, isID := ast.Unparen(call.Args[n]).(*ast.Ident); !isID {
+					return nil
+				}
+				env[pv] = ast.Unparen(call.Args[n])
+				n++
+			}
+		}
+	}
+	if n != len(call.Args) {
+		return nil
+	}
+	return c24rebuild(g, ret.Results[0], env, 0)
+}
+
+func c24rebuild(g *core.FuncInfo, e ast.Expr, env map[*types.Var]ast.Expr, depth int) ast.Expr {
+	e = ast.Unparen(e)
+	if depth > 8 {
+		return nil
+	}
+	switch x := e.(type) {
+	case *ast.BasicLit:
+		return x
+	case *ast.Ident:
+		switch o := g.Info().ObjectOf(x).(type) {
+		case *types.Const:
+			return x
+		case *types.Var:
+			if r, ok := env[o]; ok {
+				return r
+			}
+			if o.Pkg() != nil && o.Parent() == o.Pkg().Scope() {
+				return x
+			}
+		}
+		return nil
+	case *ast.BinaryExpr:
+		switch x.Op {
+		case token.ADD, token.SUB, token.MUL:
+			l, r := c24rebuild(g, x.X, env, depth+1), c24rebuild(g, x.Y, env, depth+1)
+			if l == nil || r == nil {
+				return nil
+			}
+			return &ast.BinaryExpr{X: l, OpPos: x.OpPos, Op: x.Op, Y: r}
+		}
+	case *ast.UnaryExpr:
+		if x.Op == token.SUB || x.Op == token.ADD {
+			if in := c24rebuild(g, x.X, env, depth+1); in != nil {
+				return &ast.UnaryExpr{OpPos: x.OpPos, Op: x.Op, X: in}
+			}
+		}
+	case *ast.CallExpr:
+		if len(x.Args) != 1 || x.Ellipsis.IsValid() {
+			return nil
+		}
+		okFun := false
+		if tv, ok := g.Info().Types[x.Fun]; ok && tv.IsType() {
+			if b, isB := tv.Type.Underlying().(*types.Basic); isB && b.Info()&types.IsInteger != 0 {
+				okFun = true
+			}
+		} else if b, isB := g.ObjOf(x.Fun).(*types.Builtin); isB && (b.Name() == "len" || b.Name() == "cap") {
+			okFun = true
+		}
+		if !okFun {
+			return nil
+		}
+		if in := c24rebuild(g, x.Args[0], env, depth+1); in != nil {
+			return &ast.CallExpr{Fun: x.Fun, Lparen: x.Lparen, Args: []ast.Expr{in}, Rparen: x.Rparen}
+		}
+	}
+	return nil
 }
 
 // c24linOrder normalises an ordered integer fact (<, <=, >, >= in any orientation, with negation) to
